@@ -56,14 +56,15 @@ Proof. reflexivity. Qed.
 
 Local Open Scope Z_scope.
 
-(* markers, the signed flag, header offsets; the read buffer holds the longest frame (10 + 255 + 2 + 13) *)
+(* markers, the signed flag, header offsets; the marshal buffer holds the longest frame (10 + 255 + 2 + 13), the read buffer the longest UDP datagram (65507 bytes) *)
 Theorem src_frame_layout :
   c_frame_V1MagicByte = 254 /\ c_frame_V2MagicByte = 253 /\ c_frame_V2FlagSigned = 1 /\
-  280 <= c_frame_bufferSize /\ c_frame_bufferSize = a_frame_Reader_Initialize_NewReaderSize /\
+  280 <= c_frame_bufferSize /\ 65507 <= c_frame_readBufferSize /\
+   c_frame_readBufferSize = a_frame_Reader_Initialize_NewReaderSize /\
   k_frame_V1Frame_marshalTo = [255; 0; 0; 254; 1; 2; 3; 4; 5; 6; 0; 2] /\
   k_frame_V2Frame_marshalTo = [0; 253; 1; 2; 3; 4; 5; 6; 7; 10; 0; 2; 6] /\
   d_frame_Writer_Initialize_OutComponentID = 1 /\ d_streamwriter_Writer_Initialize_ComponentID = 1.
-Proof. repeat split; try reflexivity. vm_compute; discriminate. Qed.
+Proof. repeat split; try reflexivity; vm_compute; discriminate. Qed.
 
 (* signature time: 10 microsecond ticks since 1st January 2015; the one-minute window of the reader *)
 Theorem src_frame_signing :
@@ -72,3 +73,9 @@ Theorem src_frame_signing :
   k_frame_Writer_writeFrameAndFill = [0; 0; 1; 10000] /\ k_streamwriter_Writer_writeInner = [0; 0; 1; 10000] /\
   k_frame_Reader_Read = [254; 253; 0; Z.of_N window].
 Proof. repeat split; reflexivity. Qed.
+
+(* a whole UDP datagram (at most 65507 bytes of payload over IPv4) fits into the buffer the frame
+   reader hands to the transport: no part of a datagram is cut off by the size of the read *)
+Theorem src_read_buffer :
+  65507 <= c_frame_readBufferSize /\ c_frame_readBufferSize = a_frame_Reader_Initialize_NewReaderSize.
+Proof. split; [vm_compute; discriminate|reflexivity]. Qed.
